@@ -124,6 +124,43 @@ def run_crash(case):
     return res
 
 
+def run_resume_default(case):
+    """A checkpoint of a run with a small target resumed with n_total spelled out as the library's own DEFAULT value (and one below / above it):
+    the resumed run must meet the target it was given."""
+    import inspect
+    from tempest import Sampler
+
+    res = Res()
+    default = inspect.signature(Sampler.run).parameters["n_total"].default
+    cfg = dict(case["cfg"], save_every=2, output_dir="/memfs/out", output_label="r")
+    fs = MemFS()
+    p = Probe(cfg, base=case["base"], fs=fs)
+    p.run()
+    res.evals += 1
+    if p.exc is not None:
+        res.bump("aborted")
+        return res
+    cks = sorted((k for k in fs.files if k.endswith(".state") and not k.endswith("_final.state")), key=lambda s_: int(s_.rsplit("_", 1)[1].split(".")[0]))
+    path = cks[-1]
+    k = int(path.rsplit("_", 1)[1].split(".")[0])
+    rcfg = dict(cfg)
+    rcfg.pop("save_every")
+    for nt in (int(default), int(default) - 1, int(default) + 1):
+        q = Probe(dict(rcfg, n_total=nt), base=case["base"] + 1, fs=fs, iter_offset=k, max_iters=400)
+        q.run(resume_state_path=path)
+        res.evals += 1
+        res.trans += q.events
+        cc = dict(case, n_total=nt)
+        res.outcome(("resume-default", nt), nontrivial=True)
+        if q.exc is not None:
+            res.violate(f"resume-default-n_total:raises:{type(q.exc).__name__}", f"run(resume_state_path={path}, n_total={nt}) raised {q.exc!r}", cc)
+            continue
+        for key, msg in terminal_errors(q):
+            res.violate("resume-default-n_total:" + key, msg + f" [checkpoint of a run with n_total={cfg['n_total']} resumed with n_total={nt}; the library's default is {default}]", cc)
+    res.states += 1
+    return res
+
+
 def run_bigsave(case):
     """Scale: checkpoints of tens of MiB (thousands of particles, dimension 8, a history of dozens of batches): save, load into a fresh sampler
     (exact restore), overwrite, and resume one iteration from it."""
@@ -460,6 +497,20 @@ def run_resume(case):
                         res.violate("resume-larger-n_total:" + key, msg + f" [resumed from {path} (written with n_total={cfg['n_total']}) asking for n_total={big['n_total']}]", ck)
                     if getattr(q2.sampler._core, "n_total", None) != big["n_total"]:
                         res.violate("resume-larger-n_total:n_total", f"sampler reports n_total={getattr(q2.sampler._core, 'n_total', None)} after run(n_total={big['n_total']}) on resume", ck)
+            # (5) the checkpoint resumed under ANOTHER FILE NAME (a copy / a renamed file): everything a resume needs is in the file, not in its name
+            if idx in (0, len(spy.saves) // 2, max(0, len(spy.saves) - 2)) and not path.endswith("_final.state"):
+                for alias in ("/memfs/out/backup_1.state", "/memfs/out/chain_0.state", "/memfs/out/r_999.state", "/memfs/out/plain.state"):
+                    fs.files[alias] = fs.files[path]
+                    qa = Probe(rcfg, symbols=symbols, base=case["base"], fs=fs, iter_offset=int(k), monitors=[_resume_monitor(int(k), truth, pd)])
+                    qa.run(resume_state_path=alias)
+                    res.evals += 1
+                    res.trans += qa.events
+                    fs.files.pop(alias, None)
+                    if qa.exc is not None:
+                        res.violate(f"resume-renamed:raises:{type(qa.exc).__name__}", f"run(resume_state_path=<copy of {path} named {alias}>) raised {qa.exc!r}", ck)
+                        continue
+                    for key, msg, det in qa.viol[:2]:
+                        res.violate("resume-renamed:" + key, msg + f" [resumed from a copy of {path} named {alias}, cfg={case['cfg']}]", ck)
             # (4) resuming with a SMALLER target: the checkpoint may already satisfy it; evidence() must still be the evidence of the history
             if idx >= len(spy.saves) - 3:
                 small = dict(rcfg, n_total=max(4, cfg["n_total"] // 4))
@@ -501,7 +552,7 @@ def run_resume1(case):
     return r
 
 
-KINDS = {"bigsave": run_bigsave, "recover": run_recover, "crash_run": run_crash_run, "crash": run_crash, "resume": run_resume, "resume1": run_resume1}
+KINDS = {"resume_default": run_resume_default, "bigsave": run_bigsave, "recover": run_recover, "crash_run": run_crash_run, "crash": run_crash, "resume": run_resume, "resume1": run_resume1}
 
 FACTORS = [
     ("clustering", [False, True]),
@@ -533,6 +584,7 @@ def plan(ctx):
     crash.append({"kind": "crash_run", "cfg": dict(clustering=True, eval="blobs", blob_form="nan", n_particles=16, n_total=64), "driver": "run", "base": ctx.seed, "thorough": th})
     crash += [{"kind": "recover", "cfg": dict(clustering=clu, eval=ev, n_particles=16), "base": ctx.seed, "thorough": th} for clu, ev in ((False, "scalar"), (True, "blobs"), (False, "poolobj"))]
     ctx.explore("crash-points", crash)
+    ctx.explore("resume-with-the-default-target", [{"kind": "resume_default", "cfg": dict(n_particles=512, d=2, n_total=1024, eval="vec", clustering=False, target="gauss"), "base": ctx.seed}])
     ctx.explore("large-checkpoints", [{"kind": "bigsave", "cfg": dict(n_particles=4096, d=8, eval=ev, clustering=cl, n_total=10 ** 7), "extra_batches": eb, "base": ctx.seed}
                                       for ev, cl, eb in (("vec", False, 32), ("blobs", True, 36))])
     strength = 3 if th else 2
